@@ -18,7 +18,6 @@ import vlib, gen, toolsgen as tg
 from vlib import Raw, coq, app
 
 THREADS = (1, 2, 3, 4, 8)
-KNOWN_MULTI = "gcov-json-line-in-several-functions"
 KNOWN_HIDDEN = "find-binaries-standard-filters"
 
 
@@ -65,7 +64,7 @@ def gcc_case(cli, sc, idx, prog, branch):
         # absolute include directory / absolute unit path: the compiler records these sources under an absolute name
         inc = ["-I" + os.path.join(b, "include")] if prog.get("abs_include") else []
         src = os.path.join(b, u) if u in prog.get("abs_units", []) else u
-        return ["gcc", "--coverage", "-O0"] + inc + ["-c", src, "-o", u[:-2] + ".o"]
+        return ["gcc", "--coverage", prog.get("opt", "-O0")] + inc + ["-c", src, "-o", u[:-2] + ".o"]
     objs = []
     for u in prog["units"]:
         o = u[:-2] + ".o"
@@ -77,7 +76,10 @@ def gcc_case(cli, sc, idx, prog, branch):
     if p.returncode != 0:
         return {"driver_error": "link failed: " + p.stderr.decode()[-500:]}
     for a in prog["runs"]:
-        p = sh(["./prog", a], b)
+        try:
+            p = sh(["./prog", a], b, timeout=10)
+        except subprocess.TimeoutExpired:
+            return {"driver_error": "program did not return at once (closed-form loop not applied?)"}
         if p.returncode != 0:
             return {"driver_error": "program failed"}
     # a unit without any function writes no .gcda: recompiling it makes it an ordinary never-run unit, not a stale one
@@ -215,13 +217,25 @@ def gcc_stream(chk, cli, ncases):
                             '    BUMP(r, a);\n    return r;\n}\nint main(int argc, char **argv)\n{\n    return f(argc > 1 ? atoi(argv[1]) : 0) > 1000;\n}\n',
                     "other.c": unit(1)},
           "units": ["m0.c", "other.c"], "runs": ["2", "7"], "pair_line": False}
-    progs = [(-1, w, False), (-2, d1, True), (-3, d2, False), (-4, d3, False), (-5, d4, True), (-6, d5, True), (-7, d6, True)] + progs
+    # counts above 2^53 with odd low bits (not representable as f64): at -O2 GCC evaluates a simple counting loop and its arc
+    # counter in closed form, so a trip count of 2^53+1 returns at once and gcov really prints such counts
+    spin = ("__attribute__((noinline)) %sunsigned long spin(unsigned long n)\n{\n    unsigned long s = 0;\n"
+            "    for (unsigned long i = 0; i < n; i++)\n        s += 2;\n    return s;\n}\n")
+    hmain = ("int main(int argc, char **argv)\n{\n    unsigned long n = argc > 1 ? strtoul(argv[1], 0, 10) : 3;\n"
+             "    return spin(n) == 7;\n}\n")
+    h1 = {"files": {"hot.c": "#include <stdlib.h>\n" + spin % "static " + hmain}, "units": ["hot.c"],
+          "runs": ["9007199254740993", "6"], "pair_line": False, "opt": "-O2", "expect_big": True}
+    h2 = {"files": {"m0.c": "#include <stdlib.h>\nunsigned long spin(unsigned long n);\n" + hmain, "spin.c": spin % "", "other.c": unit(1)},
+          "units": ["m0.c", "spin.c", "other.c"], "runs": ["18014398509481985", "4611686018427387905", "2"], "pair_line": False,
+          "opt": "-O2", "expect_big": True}
+    progs = [(-1, w, False), (-2, d1, True), (-3, d2, False), (-4, d3, False), (-5, d4, True), (-6, d5, True), (-7, d6, True),
+             (-8, h1, True), (-9, h2, False)] + progs
     with concurrent.futures.ThreadPoolExecutor(max_workers=8) as ex:
-        outs = list(ex.map(lambda t: gcc_case(cli, sc, t[0] + 7, t[1], t[2]), progs))
+        outs = list(ex.map(lambda t: gcc_case(cli, sc, t[0] + 9, t[1], t[2]), progs))
     known = {e["key"]: e for e in vlib.known_findings(chk.pid) if e.get("status") == "known"}
     dist = {"programs": len(progs), "runs_0": 0, "runs_1": 0, "runs_2plus": 0, "units_multi": 0, "with_header": 0, "with_subdir": 0,
             "pair_line": 0, "branch": 0, "units_total": 0, "programs_with_dotted_unit_name": 0, "programs_with_stale_units": 0, "programs_with_included_fragment": 0, "programs_with_xmacro_table": 0, "programs_with_statement_macro_header": 0,
-            "files_with_lines_but_no_function_compared": 0, "programs_with_absolute_include_dir": 0, "units_compiled_by_absolute_path": 0, "absolute_source_files_compared": 0, "stale_units": 0, "failed_items_in_model_runs": 0, "thread_counts": list(THREADS), "lines_compared": 0, "functions_compared": 0, "known_class_lines": 0,
+            "files_with_lines_but_no_function_compared": 0, "programs_with_absolute_include_dir": 0, "units_compiled_by_absolute_path": 0, "absolute_source_files_compared": 0, "stale_units": 0, "failed_items_in_model_runs": 0, "thread_counts": list(THREADS), "lines_compared": 0, "functions_compared": 0, "multi_entry_lines_compared": 0, "counts_above_2^53_not_representable_as_f64": 0,
             "latch_multiple": 0, "latch_single": 0}
     exprs, ecases = [], []
     pending_known = []
@@ -271,7 +285,6 @@ def gcc_stream(chk, cli, ncases):
         viol = None
         if set(acc) != set(rep):
             viol = "files differ: gcov %s grcov %s" % (sorted(acc), sorted(rep))
-        in_class = []
         for s in sorted(set(acc) & set(rep)):
             dist["absolute_source_files_compared"] += s.startswith("/")
             dist["files_with_lines_but_no_function_compared"] += not acc[s]["funcs"]
@@ -279,22 +292,19 @@ def gcc_stream(chk, cli, ncases):
             got = dict((l, c) for l, c in rep[s]["lines"])
             for l in sorted(set(got) | set(acc[s]["lines"])):
                 dist["lines_compared"] += 1
-                if got.get(l) != acc[s]["lines"].get(l):
-                    if l in multi:
-                        in_class.append([s, l, got.get(l), acc[s]["lines"].get(l)])
-                    elif viol is None:
-                        viol = "%s line %d: grcov %s gcov %s" % (s, l, got.get(l), acc[s]["lines"].get(l))
+                dist["multi_entry_lines_compared"] += l in multi
+                c_ = acc[s]["lines"].get(l)
+                dist["counts_above_2^53_not_representable_as_f64"] += c_ is not None and c_ > 2**53 and int(float(c_)) != c_
+                if got.get(l) != c_ and viol is None:
+                    viol = "%s line %d: grcov %s gcov %s%s" % (s, l, got.get(l), c_, " (line listed for several functions)" if l in multi else "")
             gf = {bytes.fromhex(n).decode(): e for n, st, e in rep[s]["funcs"]}
             for n in sorted(set(gf) | set(acc[s]["funcs"])):
                 dist["functions_compared"] += 1
                 if gf.get(n) != acc[s]["funcs"].get(n) and viol is None:
                     viol = "%s function %s: grcov executed=%s gcov executed=%s" % (s, n, gf.get(n), acc[s]["funcs"].get(n))
-        if in_class:
-            dist["known_class_lines"] += len(in_class)
-            if KNOWN_MULTI in known:
-                chk.known(known[KNOWN_MULTI])
-            else:
-                viol = viol or "line listed for several functions: %s" % in_class[:2]
+        if prog.get("expect_big") and not any(c > 2**53 and c % 2 == 1 for a in acc.values() for c in a["lines"].values()):
+            chk.violation({"kind": "driver-error", "case": case, "detail": "the closed-form loop program did not produce an odd count above 2^53 in gcov's account"},
+                          has_input=False, tag="gcc-driver")
         if viol:
             chk.violation({"kind": "oracle", "stream": "gcc", "case": case, "impl": rep, "expected": acc, "detail": viol,
                            "clause": "per-line counts and function executed flags equal gcov's own account"}, tag="gcc")
@@ -630,7 +640,7 @@ def run(chk):
     v = sh(["gcov", "--version"], "/").stdout.decode().split("\n")[0]
     chk.extra["toolchain"] = {"gcov": v, "gcc": sh(["gcc", "--version"], "/").stdout.decode().split("\n")[0]}
     chk.cov["rule"] = ("(GCC) seeded C programs (1-3 translation units, optional sub-directory unit, header with static inline functions, straight-line / "
-                       "if-else / for / while / switch / nested / ternary bodies, optional two functions on one line), gcc --coverage -O0, 0-3 runs; "
+                       "if-else / for / while / switch / nested / ternary bodies, optional two functions on one line), gcc --coverage -O0, 0-3 runs (two corpus programs at -O2 whose closed-form counting loop yields odd line counts above 2^53); "
                        "gcov -b -c text account (cross-checked with gcov --json-format) vs grcov -t lcov [--branch] --threads 1,2,3,4,8; several translation units per program, some with an extra dot in the file name, a header with executable code in an include directory given as an absolute -I path and units compiled through their absolute path (sources matched by the name gcov itself reports), files that own executable lines but no function (statement fragment #included inside a body, X-macro .def table expanded inside a function, header contributing only a statement macro), some stale (recompiled after the run: gcov fails on them and they must contribute nothing); glue model fed with "
                        "what `gcov <gcno> -i` leaves in a worker directory.  (LLVM) recording llvm-profdata/llvm-cov stand-ins under --llvm-path; "
                        "layouts over directories, zips, plain arguments (same relative names in several archives, names differing only by '/' vs '_', _1 suffixes, unique bytes per profile and sha1 of every merge input logged by the stand-in, noise files, both profile kinds); "
